@@ -6,6 +6,9 @@ ROOT = os.path.dirname(os.path.dirname(os.path.abspath(__file__)))
 
 # id -> (level, technique, level text, level note, design ref)
 CHECKS = {
+    "C01": ("exploration", "runtime monitoring: read-out monitor (every accessor twice, both iterators, every lookup form, wrong-kind probes) over nodes built by randomly drawn legal build programs, compared with the abstract value; DeepEqual/Copy compared with model equality",
+            "Held on the executions observed: every generated value built by several legal call sequences into basicnode (Any and kind prototypes) and bindnode Any-map/list bindings read back as exactly that value with no internal disagreement. Sampling with boundary bias, not a proof.",
+            "Trusted: internal/obs read-out monitor, internal/model. Typed value spaces are covered by C08/C13.", "DESIGN.md §2 C01"),
     "C02": ("exploration", "runtime monitoring: differential oracle (independent canonical DAG-CBOR reference encoder) over generated values, all insertion orders of small maps, head-boundary sweep, interleaved failed encodes",
             "Held on the executions observed: every generated value, in several insertion orders and node implementations, encoded to exactly the reference encoder's bytes; EncodedLength matched; decode read back the key-sorted value. Sampling with boundary bias, not a proof.",
             "Trusted: internal/ref/cbor encoder (written from the spec), go-cid for CID parsing.", "DESIGN.md §2 C02"),
